@@ -3035,9 +3035,10 @@ MANIFEST = {
             "determined by their rank; decided by the driver op fragi on every generated input) two integer terms have the same "
             "simp_full / int_norm_conv normal form exactly when they have the same value under every valuation (a normal form is "
             "determined by its polynomial: exponent vectors of bodies, coefficients of monomials, strictly sorted lists). "
-            "int_norm_eq_canonical_partial: equations whose differences lhs - rhs agree under every valuation (terms moved across =) "
-            "get the identical int_norm_eq result; NOT proved: invariance of int_norm_eq under an overall sign (needs that "
-            "multiplying a normal form by -1 negates the coefficients in place). int_norm_poly_invariant: the normal form has the "
+            "int_norm_eq_canonical: equations whose differences lhs - rhs agree under every valuation (terms moved across =), and "
+            "equations whose differences are negatives of each other (overall sign: b = a, -a = -b), get the identical int_norm_eq "
+            "result (multiplying a normal form by -1 negates the coefficients in place, and the first-coefficient test picks the "
+            "same representative) -- same fragment, on the two differences. int_norm_poly_invariant: the normal form has the "
             "convert_to_poly list of the term. "
             "For (6) and (7) canonicity is compared against the independent exact-rational evaluator on cancellation-rich pairs "
             "every run, as are the decisions of nat_norm, real_norm, int_eq_macro and int_norm_eq; proplogic.norm_full / sort_conj / "
